@@ -47,4 +47,10 @@ CHECKS["C18"] = dict(level="exploration", technique="TLC-generated exhaustive sm
          "templates (all N instantiated), with non-commutative custom operations pinning the fold order and sentinels detecting writes "
          "beyond N; TLC compares results exactly.",
     note="Two deviations from std:: (accumulate(op) argument order, max_element(comp) comparator sense) are recorded known findings.", ref="8/C18")
+CHECKS["C16"] = dict(level="exploration", technique="decision table in TLA+ (IEEE754.tla) judged by TLC on an exhaustive float sweep in -O2 and -Ofast builds",
+    text="The classification table (exponent class x fraction x x87 integer bit -> class) is the specification; the harness sweeps all 2^32 "
+         "float encodings and every double / x87 exponent with structured and random mantissas, in an -O2 and an -Ofast build, and aggregates "
+         "(row, answers) buckets; TLC checks every bucket against the table, the exact per-row counts for float, the presence of every row, "
+         "and consistency of isnan / isfinite.",
+    note="double and long double are per-exponent samples; x87 rows follow glibc and are cross-checked against std::fpclassify at run time.", ref="8/C16")
 NOT_APPLICABLE = {}
